@@ -52,6 +52,7 @@ def run (st : St) (args : List String) : St × String :=
       let (resp, n) := serverFrame typ.toNat! svc.toNat! obj.toNat! act.toNat! payload
       let st' := { st with execs := st.execs + n }
       (st', s!"{resp} execs={st'.execs}")
+  | "sv.abandon" :: _ => (st, "ok")  -- the object takes the next message whatever became of the answer to the one before (own_answer, at_most_once)
   | "c04.storm" :: _ => (st, "ok")   -- Props/C04: own answer, exactly once, on every schedule
   | _ => (st, "bad-op")
 
